@@ -321,15 +321,15 @@ Proof.
 Qed.
 
 (* ---------- what the reader reads from the printed string ---------- *)
-Theorem printed_reads out maps : mol_to_smiles m = Ok (out, maps) ->
+Theorem printed_reads_ord out maps : mol_to_smiles m = Ok (out, maps) ->
   exists ord, NoDup ord /\ (forall j, In j ord <-> (j < natoms m)%nat) /\
-    read_smiles out = Some {| sm_atoms := map (aat m) ord; sm_nbrs := map (frow m ord) ord |}.
+    read_smiles out = Some {| sm_atoms := map (aat m) ord; sm_nbrs := map (frow m ord) ord |} /\ ord = eord m.
 Proof.
   intro E. unfold mol_to_smiles in E.
   destruct (write_roots m (roots m) [] 0) as [[frags maps']|] eqn:Ew; cbn [bind] in E; [|discriminate]. inversion E; subst out maps'; clear E.
   destruct (write_roots_wroots m _ _ _ _ _ Ew) as (evss & logf & Ewr & ->).
   destruct (wroots_rtoks m _ _ _ _ Ewr) as (_ & ts & Ert).
-  destruct (read_graph m Hb Hnd Hsym HT Hadj ts logf Ert) as (st' & ord & Es & Q & S & O & At & Rows & Hndo & Hord & _ & Hkeys & Hndl).
+  destruct (read_graph_ord m Hb Hnd Hsym HT Hadj ts logf Ert) as (st' & ord & Es & Q & S & O & At & Rows & Hndo & Hord & _ & Hkeys & Hndl & Eord).
   (* fewer than 100 labels *)
   assert (Hlog : (length logf < 100)%nat).
   { apply Nat.le_lt_trans with (length ring_pairs); [|exact Hrings]. apply NoDup_incl_length; [exact Hndl|].
@@ -342,13 +342,18 @@ Proof.
   { intros i bonds e Ei He. assert (bonds = row m i) by (unfold row; symmetry; now apply nth_error_nth). subst. now apply (Hb i e). }
   destruct (wroots_lex m Hatoms Hbonds _ _ _ _ Ewr Hlog) as (ts' & Ert' & [_ PL]). rewrite Ert in Ert'. inversion Ert'; subst ts'; clear Ert'.
   pose proof (PL [] [] I lexes_nil) as Lx. rewrite !app_nil_r in Lx. change (lit ".") with [46%N] in Lx.
-  exists ord. split; [exact Hndo|]. split; [exact Hord|].
+  exists ord. split; [exact Hndo|]. split; [exact Hord|]. split; [|exact Eord].
   unfold read_smiles. rewrite (lexes_read _ _ Lx).
   destruct (rtoks_chk m _ _ _ _ Ert) as [Hchk _]. unfold chk in Hchk. rewrite Hchk. cbn [negb].
   change {| r_atoms := []; r_nbrs := []; r_prev := None; r_stack := []; r_pend := None; r_open := [] |} with init_state.
   rewrite Es, Q, S, O, Rows, At.
   reflexivity.
 Qed.
+
+Theorem printed_reads out maps : mol_to_smiles m = Ok (out, maps) ->
+  exists ord, NoDup ord /\ (forall j, In j ord <-> (j < natoms m)%nat) /\
+    read_smiles out = Some {| sm_atoms := map (aat m) ord; sm_nbrs := map (frow m ord) ord |}.
+Proof. intro E. destruct (printed_reads_ord out maps E) as (ord & A & B & C & _). exists ord. auto. Qed.
 
 (* ---------- C01, the printed string ---------- *)
 Theorem printed_valid out maps : mol_to_smiles m = Ok (out, maps) -> valid_smiles_under T out = true.
